@@ -10,6 +10,10 @@ files — parses back into the term algebra of the Lean model (JSON form of `Dri
 init / add-key / snapshot / delete / clean with several users, records every upload with its payload, and builds the matching
 `sym.run` request for the model.  `unify` compares model terms and parsed real terms up to a bijection of the fresh values
 (per class), i.e. structurally: which key, which nonce class, which payload.
+
+Client state (C05): a `SymWorld` may be given a cache directory, an existing backend object (re-initialised location) and a
+shared clock, so that several repositories are driven from "one machine"; the view each unlocked client had of `encrypted` is
+recorded (`views`).  All new parameters are keyword-only with the old behaviour as default (C04 / C14 are unaffected).
 """
 import base64
 import contextlib
@@ -475,24 +479,35 @@ class RecChunker:
 
 class SymWorld:
     """One real repository + several keys; every command is mirrored as an op of the symbolic model.
-    Works with the tagged adapters (symbolic tie) and with the real ones (direct oracles) alike."""
+    Works with the tagged adapters (symbolic tie) and with the real ones (direct oracles) alike.
 
-    def __init__(self, scratch, settings, password=b'pw-0-secret', parser=None):
+    Client state (C05): every command is issued by a fresh `Repository` object created with `cache_directory` (default: none, as
+    before).  Several `SymWorld`s may be given the SAME directory (the CLI's default `~/.cache/replicat` is shared by every
+    repository of a user), the same `backend` object (a location that was wiped and re-initialised: the caller clears
+    `backend.objects` / `backend.events` first) and the same `ticker` (one wall clock).  `views` records, per unlocked client, what
+    it concluded `props.encrypted` to be — the input of `runView` in the Lean model."""
+
+    def __init__(self, scratch, settings, password=b'pw-0-secret', parser=None, *, backend=None, cache_directory=None,
+                 src_name='sym_src', ticker=None):
         import replicat.repository as rr
         self.rr = rr
         rr.datetime = FakeDatetime
         self.scratch = scratch
-        self.backend = RecBackend()
+        self.backend = backend if backend is not None else RecBackend()
+        self.cache_directory = cache_directory
         self.parser = parser
         self.enc = settings.get('encryption', {}) is not None
-        self.src = scratch.dir('sym_src')
+        self.src = scratch.dir(src_name)
         self.clock = 0
+        self.ticker = ticker       # optional {'t': n} shared by the repositories of one case
+        self.views = []            # what each unlocked client believed `encrypted` to be, in command order
+        self.last_view = None
         self.stdout = []           # (command, text printed to stdout)
         self.keys = []             # per user: dict(key=json-able key as emitted, password, base, shared)
         self.ops = []              # model ops
         self.snaps = []            # dict(name, location, user, files {path: bytes}, result)
         self.settings = json.loads(json.dumps(settings))
-        repo = R.new_repo(self.backend, concurrent=1)
+        repo = R.new_repo(self.backend, concurrent=1, cache_directory=cache_directory)
         with R.quiet() as (so, _):
             res = R.run(repo.init(password=password if self.enc else None, settings=json.loads(json.dumps(settings))))
         self.stdout.append(('init', so.getvalue()))
@@ -501,14 +516,20 @@ class SymWorld:
         self.init_repo = repo
 
     # -- users
-    def repo(self, ui):
+    _OWN = object()
+
+    def repo(self, ui, cache_directory=_OWN):
+        """a fresh client (one `Repository` object = one CLI command), unlocked as user `ui`.  `cache_directory` overrides the
+        world's client state for this one client (None = a client without any local state)"""
         k = self.keys[ui]
-        repo = R.new_repo(self.backend, concurrent=1)
+        repo = R.new_repo(self.backend, concurrent=1, cache_directory=self.cache_directory if cache_directory is SymWorld._OWN else cache_directory)
         with R.quiet():
             if self.enc:
                 R.run(repo.unlock(password=k['password'], key=self.serialized_key(ui)))
             else:
                 R.run(repo.unlock())
+        self.last_view = bool(repo.props.encrypted)
+        self.views.append(self.last_view)
         repo.props = dataclasses.replace(repo.props, chunker=RecChunker(repo.props.chunker))
         return repo
 
@@ -520,7 +541,7 @@ class SymWorld:
         if shared:
             repo = self.repo(base)
         else:
-            repo = R.new_repo(self.backend, concurrent=1)
+            repo = R.new_repo(self.backend, concurrent=1, cache_directory=self.cache_directory)
         with R.quiet() as (so, _):
             res = R.run(repo.add_key(password=password, settings={'encryption': {'kdf': dict(kdf or R.FAST_KDF)}}, shared=shared))
         self.stdout.append(('add_key', so.getvalue()))
@@ -529,7 +550,11 @@ class SymWorld:
 
     # -- commands
     def tick(self):
-        self.clock += 1
+        if self.ticker is not None:
+            self.ticker['t'] += 1
+            self.clock = self.ticker['t']
+        else:
+            self.clock += 1
         FakeDatetime._now = _dt.datetime(2031, 1, 1) + _dt.timedelta(seconds=self.clock * 11, microseconds=self.clock * 131 % 999983 + 1)
 
     def snapshot(self, ui, fileset, note=None, mtimes=None):
@@ -546,7 +571,7 @@ class SymWorld:
         ev = self.backend.events[before:]
         truth = {str(self.src / k): v for k, v in fileset.items()}
         snap = {'name': res.name, 'location': res.location, 'user': ui, 'files': truth, 'result': res, 'chunks': list(rec.chunks),
-                'events': ev, 'note': note, 'repo': repo}
+                'events': ev, 'note': note, 'repo': repo, 'view': self.last_view}
         self.snaps.append(snap)
         return snap
 
